@@ -639,3 +639,5 @@ def run(ctx):
     from . import c14
     r9 = ctx.inst("C16.R9", "what the pair reports about its decimals can only be changed by the factory (shared with C14.R6): record and self-description stay equal after creation", floor=1)
     compose.pull(ctx, r9, c14, {"C14.R6"}, "C16.R9")
+    r10 = ctx.inst("C16.R10", "a decimals re-registration keeps record and self-description equal: the factory rewrites every matching record and the pair applies the same array under the same condition (shared with C17.R1/R3/R5)", floor=3)
+    compose.pull(ctx, r10, c17, {"C17.R1", "C17.R3", "C17.R5"}, "C16.R10")
